@@ -172,6 +172,13 @@ def sym_recv(inp, part):
             raise Reject
         t = inp.int("t", 0, part["tvhi"])
         p = inp.str("p", 1, exclude=LINE_TERMINATORS, no_trailing_ws=True)
+    if cmd == 1:
+        # child type variety (per-version tables exist for it): S_TEMP / S_CUSTOM
+        ctype = [6, 23][inp.pick("ctype", 2)]
+        for w in (w1, w2):
+            for nd in w.gw.nodes.values():
+                for ch in nd.children.values():
+                    ch.child_type = ctype
     line = M.line(n, c, cmd, 0, t, p)
     outs = []
     for w in (w1, w2):
